@@ -26,8 +26,9 @@ VALUES = [('12', 12), ('-7', -7), ('1.50', 1.5), ('-0.25', -0.25), ('1.0E+03', 1
 UNITS = ['', 'M', 'FT', 'V/V', 'OHM.M', 'US/F', 'K/M3', '%']
 DESCS = ['', 'START DEPTH', 'depth. of (well)', 'x - y', '1  2', 'API code', 'trailing dot.']
 MNEMS_W = ['STRT', 'STOP', 'STEP', 'NULL', 'COMP', 'WELL', 'FLD', 'LOC']
-MNEMS_P = ['BHT', 'BS', 'FD', 'MATR', 'RMF', 'DFD', 'MDEN']
-CURVES = ['DEPT', 'DT', 'RHOB', 'NPHI', 'SFLU', 'SFLA', 'ILM', 'ILD', 'GR', 'CALI'] + ['C%03d' % i for i in range(60)]
+# (a mnemonic is anything without a space, a dot or a colon: ratios, indexed and bracketed names, sums, percentages occur)
+MNEMS_P = ['BHT', 'BS', 'R@BHT', 'MATR', 'RMF', 'MUD#', 'MDEN', 'K/TH']
+CURVES = ['DEPT', 'DT', 'TH/K', 'RHOB[1]', 'NPHI', 'GR(MAX)', 'SFLA', 'C1+C2', '%SAND', 'A_B', 'FILE-ID', 'RHOB', 'SFLU', 'ILM', 'ILD', 'GR', 'CALI'] + ['C%03d' % i for i in range(60)]
 
 
 def make_content(rng, nhdr, nf, wrap, vers):
@@ -76,7 +77,8 @@ def make_content(rng, nhdr, nf, wrap, vers):
             row.append(rng.choice([('1.5', 1.5), ('-2.25', -2.25), ('1e3', 1000.0), ('0', 0.0) if c['null'] != 0.0 else ('7', 7.0),
                                    ('-999.25', None) if c['null'] == -999.25 else ('-999.25', -999.25), ('NaNx', None),
                                    ('12:30', None), ('--', None), ('YES', None), ('NO', None), ('yes', None), ('No', None), ('N/A', None), ('*****', None),
-                                   ('1.5.2', None), ('0x10', None), ('TRUE', None), ('E5', None), ('+', None), ('0.001', 0.001), ('123456.789', 123456.789)]))
+                                   ('1.5.2', None), ('0x10', None), ('TRUE', None), ('E5', None), ('+', None), ('0.001', 0.001), ('123456.789', 123456.789),
+                                   ('.5', 0.5), ('-.25', -0.25), ('+7', 7.0), ('5.', 5.0), ('1E3', 1000.0), ('1.5E+2', 150.0), ('007', 7.0)]))
         frames.append(row)
     c['frames'] = frames
     return c
